@@ -5,6 +5,7 @@
 # Everything lives under /tmp/vm-<pid> and is removed at the end.
 set -u
 patch="$1"; tier="$2"; shift 2
+[ "$patch" != "-" ] && patch=$(readlink -f "$patch")
 W=/tmp/vm-$$
 trap 'git -C /repo worktree remove --force $W/repo >/dev/null 2>&1; rm -rf $W' EXIT
 mkdir -p $W/root
